@@ -7,7 +7,7 @@ from concurrent.futures import ThreadPoolExecutor
 import descs
 import gen
 import hist
-from common import Rng, PY, VERIF
+from common import Rng, PY, VERIF, REPO
 
 import pytrs
 
@@ -116,7 +116,7 @@ def rand_probe(r, next_id):
 
 def fresh(probe):
     p = subprocess.run([PY, os.path.join(VERIF, 'harness', 'fresh_probe.py')], input=json.dumps(probe), capture_output=True,
-                       text=True, env=dict(os.environ, PYTHONPATH='/repo'))
+                       text=True, env=dict(os.environ, PYTHONPATH=REPO))
     if p.returncode != 0:
         return ['!fresh-process-failed ' + p.stderr[-200:]]
     return json.loads(p.stdout.strip().split('\n')[-1])
